@@ -34,6 +34,10 @@ Definition model1 (o : dop) : list (list N) :=
     | Panic => [[3]; [0]]
     end
   else if code =? 4 then batch_model (a 0 args) (a 1 args) (a 2 args)
+  else if code =? 6 then
+    (* op 6 = delete (0) or move (1) of an alias whose target is gone, by an account holding neither the file nor the
+       folder privilege for it: nothing happens.  obs [did the alias disappear / anything change?] *)
+    [[0]]
   else [].
 Definition model (ops : list dop) : list (list (list N)) := map model1 ops.
 (* the model IS the reference decision table; the oracle is the same judgement - except for path probes, which are
